@@ -239,12 +239,13 @@ type RollbackSpec struct {
 
 // Result of a transaction step sequence.
 type TxResult struct {
-	Err        error // first error returned by LiteFS at a step SQLite would fail on
-	ErrStep    string
-	Finalized  bool // the finalisation step returned success
-	Aborted    bool // the step hook aborted the program
-	NewImage   *ref.Image
-	JournalLen int64
+	Err          error // first error returned by LiteFS at a step SQLite would fail on
+	ErrStep      string
+	Finalized    bool // the finalisation step returned success
+	Aborted      bool // the step hook aborted the program
+	NewImage     *ref.Image
+	JournalLen   int64
+	StaleHdrZaps int // stale segment headers of an earlier transaction zeroed (persistent journal)
 }
 
 // RunRollbackTx executes spec. On success the model image is updated.
@@ -375,6 +376,21 @@ func (c *Conn) RunRollbackTx(spec RollbackSpec) (res TxResult) {
 			exclusive = true
 		}
 		if spec.NRec != "nosync" {
+			// SQLite's syncJournal: a persistent journal may still hold a segment
+			// header of an earlier transaction right after this segment; its
+			// first byte is zeroed before nRec is patched so that a hot-journal
+			// playback cannot run on into the stale segment.
+			nextHdr := ((joff-1)/sector + 1) * sector
+			magic := make([]byte, 8)
+			if n, rerr := jf.ReadAt(c.Owner, magic, nextHdr); rerr == nil && n == 8 && string(magic) == string(ref.JournalMagic) {
+				if err := d.step("journal zap stale header"); err != nil {
+					return err
+				}
+				if err := c.write(jf, []byte{0}, nextHdr); err != nil {
+					return err
+				}
+				res.StaleHdrZaps++
+			}
 			if err := d.step("journal patch nRec"); err != nil {
 				return err
 			}
